@@ -130,6 +130,12 @@ func c04Judge(c *rep.Ctx, d []int, names []string, enc, route string) {
 		sp = enum.Spelling{Unit: "  ", Bullets: []byte("-*"), Compact: true}
 	case "mixed-roots":
 		sp = enum.Spelling{Unit: "  ", Bullets: []byte("-"), Heading: true, ListRootsFirst: 1}
+	case "compact-dash":
+		sp = enum.Spelling{Unit: "  ", Bullets: []byte("-"), Compact: true}
+	case "compact-star":
+		sp = enum.Spelling{Unit: "\t", Bullets: []byte("*"), Compact: true}
+	case "compact-plus":
+		sp = enum.Spelling{Unit: "    ", Bullets: []byte("+"), Compact: true}
 	case "opts":
 		opts = append(extraOpts("fmt,exts,nil,strict", ""), append(opts, extraOpts("target,nil", "/nonexistent/never/used")...)...)
 	}
@@ -329,6 +335,85 @@ func init() {
 				c04Judge(c, d, nm, enc, "md+massive")
 			}
 		}
+		// names made of the marker characters, written without the blank after the bullet ("---" is the item "--", "****"
+		// the item "***"): every forest of up to three nodes over such names, the three bullets; a spelling is used only
+		// when the specification parser reads it back as the intended forest
+		markers := []string{"--", "***", "++", "-", "- -", "**", "--x", "a", "___"}
+		for n := 1; n <= 3 && !c.Expired(); n++ {
+			enum.DepthSeqs(n, func(d []int) {
+				enum.Tuples(n, len(markers), func(t []int) {
+					if !c.Take() || c.Expired() {
+						return
+					}
+					names := enum.Pick(markers, t)
+					roots := 0
+					for _, x := range d {
+						if x == 1 {
+							roots++
+						}
+					}
+					for _, v := range []string{"compact-dash", "compact-star", "compact-plus"} {
+						spl := map[string]enum.Spelling{"compact-dash": {Unit: "  ", Bullets: []byte("-"), Compact: true}, "compact-star": {Unit: "\t", Bullets: []byte("*"), Compact: true}, "compact-plus": {Unit: "    ", Bullets: []byte("+"), Compact: true}}[v]
+						sp := model.ParseSpec(enum.Spell(d, names, spl))
+						if sp.Verdict != model.WellFormed || !model.Equal(sp.Forest, enum.Build(d, names)) {
+							continue
+						}
+						c.StateN(1)
+						c.Nontrivial()
+						c.Inc("marker_name_cases")
+						for _, enc := range []string{"json", "yaml", "toml"} {
+							if enc == "toml" && roots != 1 {
+								continue
+							}
+							c04Judge(c, d, names, enc, "md+"+v)
+						}
+					}
+				})
+			})
+		}
+		// the size sweep (enum/size.go) and the fingerprint twins (enum/twins.go), both routes
+		upTo, far, deepTo, deepFar := 300, 1030, 130, 260
+		if c.Thorough() {
+			upTo, far, deepTo, deepFar = 1100, 2100, 300, 520
+		}
+		c.Bound("size_sweep_width_every_integer_up_to", fmt.Sprint(upTo))
+		c.Bound("size_sweep_depth_every_integer_up_to", fmt.Sprint(deepTo))
+		c.Bound("size_sweep_depth_power_of_two_neighbours_up_to", fmt.Sprint(deepFar))
+		sweep := func(s enum.SizeShape) {
+			if !c.Take() || c.Expired() {
+				return
+			}
+			roots := 0
+			for _, x := range s.D {
+				if x == 1 {
+					roots++
+				}
+			}
+			c.StateN(1)
+			c.Nontrivial()
+			c.Inc("size_sweep_cases")
+			encs := []string{"json", "yaml", "toml"}
+			if roots != 1 {
+				encs = encs[:2]
+			}
+			enc := encs[s.Size%len(encs)]
+			c04Judge(c, s.D, s.Names, enc, "md")
+			if roots == 1 {
+				c04Judge(c, s.D, s.Names, encs[(s.Size+1)%len(encs)], "root")
+			}
+			if strings.HasPrefix(s.Tag, "twins") {
+				for _, e := range encs {
+					c04Judge(c, s.D, s.Names, e, "md")
+					c04Judge(c, s.D, s.Names, e, "md+massive")
+					if roots == 1 {
+						c04Judge(c, s.D, s.Names, e, "root")
+					}
+				}
+			}
+		}
+		enum.DeepShapes(enum.Sizes(deepTo, deepFar), sweep)
+		enum.WideShapes(enum.Sizes(upTo, far), sweep)
+		enum.TwinShapes(sweep)
 		// hostile names; From-Root additionally gets names Markdown cannot spell (empty, multi-line)
 		rootOnly := []string{"", "a\nb", " a\nb", "\na", "\ta\nb", "\n", "a\r\nb ", " \n", "\u2028\nb", "\u2029\n#", "\u0085\nb"}
 		all := append(append([]string{}, c04Hostile...), rootOnly...)
